@@ -13,15 +13,16 @@ MAP = 'tracklib.algo.mapping'
 DYN = 'tracklib.algo.dynamics'
 
 EXPLANATION = (
-    "Static analysis of mapOnNetwork / __mapOnNetwork / __distToNode and of the write effects of the whole "
-    "map-matching call tree: every candidate kept is dominated by the radius test on the distance returned by the "
-    "projection of THIS observation on the geometry of THIS edge, and carries end-node distances computed from the "
-    "same (geometry, point, segment); empty candidate lists get the unmatched sentinel; the two end-node distances "
-    "pair abscissa S[i] with vertex i and S[i+1] with vertex i+1; arguments reach the formals of the same name; the "
-    "call tree writes no position, timestamp or observation list of the track except one store guarded by a mode "
-    "set that excludes the mode constant map-matching passes.")
+    "Static analysis of mapOnNetwork / __mapOnNetwork / __distToNode / proj_polyligne / proj_segment: the functions are "
+    "interpreted (not executed) by the checker's AST interpreter on the repository's own Track / Obs / ENUCoords objects; "
+    "only the network's and the decoder's interfaces are stand-ins.  For every observation the decoder must see exactly the "
+    "candidates (foot of the perpendicular on the edge, the edge, abscissa of the foot from the source node and from the target "
+    "node) of the neighbouring edges nearer than the search radius, or the unmatched sentinel (its own position, -1, -1, -1); the "
+    "projection is the nearest point of the polyline with its segment; the end-node distances pair abscissa S[i] with vertex i "
+    "and S[i+1] with vertex i+1; arguments reach the per-track matcher unchanged; the decoder writes its choice on the track "
+    "it is given; the call tree writes no position, timestamp or observation list of the track.")
 ASSUMPTIONS = ["callees are resolved by name with receiver typing from constructors/annotations (DESIGN section 2, effects)"]
-TECHNIQUE = "abstract interpretation of the candidate construction (__mapOnNetwork with an uninterpreted projector) and of the decoder's write-back on a second decoding of the same track (HMM.estimate, bounded case domains); abstract interpretation of __distToNode on edge geometries with the repository's Track (C10.I) and of mapOnNetwork with a recording stand-in for the per-track matcher (C10.A); guard dominance and provenance on loop-body paths (F6), index pairing (F3, weighed against C10.I), swapped-argument rule (weighed against C10.A), interprocedural write-effect summaries (F1)"
+TECHNIQUE = "abstract interpretation of mapOnNetwork end to end on concrete edge geometries and observations (the repository's Track / Obs / ENUCoords; network index and decoder behind recording stand-ins; 140 matchings over neighbourhoods x distances below / at / above the radius, two tracks per call, switches, zero radius; oracle = nearest point of the polyline computed by the checker) (C10.E); the same function with an uninterpreted projector for provenance (C10.D, weighed against C10.E); the decoder's write-back on a second decoding of the same track (C10.V); __distToNode (C10.I), proj_segment / proj_polyligne / mapOnTrack (C10.P, C10.M) and mapOnNetwork with a recording per-track matcher (C10.A) interpreted on bounded case domains; symbolic path rules weighed against those (C10.Y, C10.N, C10.W); interprocedural write-effect summaries (C10.F)"
 
 
 def vr(v):
